@@ -143,6 +143,43 @@ def default_of(name, prop):
     raise WorldError("default of %s is not an immutable value: %r" % (name, type(v)))
 
 
+# classes whose own __init__ the model knows (Model/HeapOps.v construct, Model/HeapApi.v bundle):
+# Bundle folds positional arguments into `objects`; MarkingDefinition turns a definition mapping
+# into the marking object; 2.1 observables write the deterministic id; the others only move
+# positional / derived immutable values into their own keyword dict.
+KNOWN_INITS = {"Bundle", "MarkingDefinition", "StatementMarking", "Indicator", "ObservedData", "Relationship", "Sighting"}
+
+
+def check_inits(classes):
+    """fail closed on a class that overrides __init__ in a way the model has not been told about"""
+    import stix2.base
+    import stix2.v21.base
+    # base._Observable.__init__ pops `_valid_refs` out of its own keyword dict (model: the object's _valid_refs field)
+    inherited = {stix2.base._STIXBase.__init__, stix2.base._Observable.__init__, stix2.v21.base._Observable.__init__}
+    for n in classes:
+        cls = cls_of(n)
+        init = cls.__init__
+        if init in inherited:
+            continue
+        if cls.__name__ in KNOWN_INITS and init is vars(cls).get("__init__"):
+            continue
+        raise WorldError("class %s has an __init__ the heap model does not know" % n)
+
+
+def defn_classes():
+    import inspect
+    out = {}
+    for ver in ("v20", "v21"):
+        mod = getattr(stix2, ver).common
+        md = mod.MarkingDefinition
+        src = inspect.getsource(md.__init__)
+        if "OBJ_MAP_MARKING[kwargs['definition_type']]" not in src or "marking_type(**defn)" not in src:
+            raise WorldError("%s.MarkingDefinition.__init__ no longer builds the marking from OBJ_MAP_MARKING" % ver)
+        out[cname(md)] = [[k, cname(c)] for k, c in mod.OBJ_MAP_MARKING.items()
+                          if c.__module__.startswith("stix2.v2")]
+    return out
+
+
 def world():
     import stix2.registry as R
     from stix2.v21.base import _Observable as Obs21
@@ -168,7 +205,9 @@ def world():
         defaults[n] = [[pn, default_of(pn, p)] for pn, p in cls._properties.items() if hasattr(p, "default")]
         if issubclass(cls, Obs21):
             det_id.append(n)
-    return {"classes": classes, "registry": registry, "det_id": sorted(det_id), "defaults": defaults}
+    check_inits(classes)
+    return {"classes": classes, "registry": registry, "det_id": sorted(det_id), "defaults": defaults,
+            "defn_classes": defn_classes()}
 
 
 # --------------------------------------------------------------------------
@@ -556,10 +595,26 @@ def read_attr(a, name):
         return "raises " + type(e).__name__
 
 
+def canon_ser(t):
+    """a snapshot with every serialize() text replaced by its parsed JSON value:
+    the order in which an object's members are written is not part of its value
+    (toplevel-extension / custom property names go through a set)"""
+    if isinstance(t, list):
+        if len(t) == 5 and t[0] == "o" and isinstance(t[3], str):
+            try:
+                ser = json.dumps(json.loads(t[3]), sort_keys=True)
+            except ValueError:
+                ser = t[3]
+            return ["o", t[1], canon_ser(t[2]), ser, canon_ser(t[4])]
+        return [canon_ser(x) for x in t]
+    return t
+
+
 def snap_cmp(a, c):
-    """deep value of copy equals deep value of original (ignoring the
-    serialize text only if both fail)"""
-    return json.dumps(snap(a), sort_keys=True, default=str) == json.dumps(snap(c), sort_keys=True, default=str)
+    """deep value of the copy equals deep value of the original, as values:
+    member order of dicts and of serialized objects is ignored"""
+    return json.dumps(canon_ser(snap(a)), sort_keys=True, default=str) == \
+        json.dumps(canon_ser(snap(c)), sort_keys=True, default=str)
 
 
 def rkind(r):
